@@ -337,3 +337,43 @@ def rejected_sign_after_link_failure(flag: bool) -> bool:
     proto._comm_issue = flag
     out = handle(proto, req)
     return out == ("reply", {"errorcode": want}) and world.exchanges == 0 and len(world.log) == 0
+
+
+# ------------------------------------------------------------------ two fields deviating at once (thorough tier)
+
+SIGN_FIELDS = [("keyId",), ("auth",), ("auth", "receipt"), ("auth", "receipt_merkle_proof"), ("message",), ("message", "tx"),
+               ("message", "input"), ("message", "sighashComputationMode"), ("message", "extra"), ("version",)]
+PAIRS = [(a, b) for i, a in enumerate(SIGN_FIELDS) for b in SIGN_FIELDS[i + 1:]
+         if not (len(a) == 1 and len(b) == 2 and b[0] == a[0])]       # (a field inside a deviating parent is moot)
+
+
+@obligation(tier="thorough", parts=len(PAIRS), timeout=300, thorough_timeout=900,
+            part_names=lambda p: "sign: %s + %s" % (".".join(PAIRS[p][0]), ".".join(PAIRS[p][1])),
+            bounds="authorized sign request with TWO fields deviating at once (every pair of 10 fields, partition); each deviation among "
+                   "{absent, integer (symbolic), bool, null, [], {}, 1.5, boundary string (symbolic index)}: the verdict must be one the "
+                   "documents admit for the combination (the precedence between simultaneous errors is left open by them)",
+            examples=[(0, dict(k1=0, k2=0, i1=0, i2=0)), (10, dict(k1=1, k2=9, i1=7, i2=3)), (30, dict(k1=4, k2=2, i1=0, i2=1))])
+def two_fields_v5(k1: int, k2: int, i1: int, i2: int) -> bool:
+    """
+    pre: 0 <= k1 < NKINDS and 0 <= k2 < NKINDS
+    pre: k1 != 3 and k1 != 8 and k2 != 3 and k2 != 8
+    post: _
+    """
+    f1, f2 = PAIRS[part()]
+    p1, v1 = deviate(k1, i1, "")
+    p2, v2 = deviate(k2, i2, "")
+
+    def build():
+        r = valid_request("sign", 0)
+        set_path(r, f1, p1, v1)
+        try:
+            set_path(r, f2, p2, v2)
+        except (TypeError, KeyError, AttributeError):
+            pass                     # the parent of the second field is no longer an object
+        return r
+    req, spec_req = build(), build()
+    allowed = allowed_v5(spec_req, tx_decodable, header_decodable)
+    proto, dongle, world = make_stack(c04._device("sign"), bytes_model=True)
+    contact_only(world)
+    out = handle(proto, req)
+    return admissible(classify(out, world), allowed)
